@@ -31,5 +31,5 @@ def jobs(tier, seed):
                           unwind=k + r + 3, object_bits=12, timeout=1800, mem_gb=10, status="bounded", solver="cadical", native=False,
                           checks=DEFAULT_CHECKS + ["--memory-leak-check"],
                           bound="k=%d, n-k=%d, length 2, histories of <= %d calls, release at any point" % (k, r, steps)))
-    js += lbc.release_jobs(tier, seed, prop="C08") + [j for i, j in enumerate(lbc.cb_jobs(tier, seed, prop="C08", prefix="relcb", group_prefix="lbc_release_callbacks")) if tier != "quick" or i % 2 == 0]
+    js += lbc.release_jobs(tier, seed, prop="C08") + [j for j in lbc.cb_jobs(tier, seed, prop="C08", prefix="relcb", group_prefix="lbc_release_callbacks") if tier != "quick" or lbc.pick(j.name, 2, 0)]
     return js
